@@ -30,6 +30,11 @@ func (vc *VC) execCall(fx *FuncCtx, fr *Frame, st *State, c *ssa.CallCommon, ins
 	}
 	if c.IsInvoke() {
 		recv := vc.val(fx, fr, c.Value)
+		if fx != nil && fx.top && c.Method != nil {
+			// (interface method calls are counted under the method's name)
+			kf := vc.reg.get("ghost:called:"+c.Method.Name(), 0, IntSort, nil)
+			st.heap[kf.Name] = Add(st.heapVar(kf), IntC(1))
+		}
 		return vc.callInvoke(fx, st, c, recv, args, rt, instr)
 	}
 	fv := vc.val(fx, fr, c.Value)
